@@ -8,7 +8,7 @@
 (f) samples of (a)-(d) again with debug logging switched on
 Correspondence: outcomes of the calls of (c) equal the pure Coq model's outcome for the call in isolation."""
 import json, threading
-from harness import core, codec, universe as U, implrun as I, streams
+from harness import core, codec, gen, universe as U, implrun as I, streams
 from harness.gen import base_desc
 from harness.props.c04 import jsonable, any_canonical
 from pyasn1 import debug, error
@@ -428,14 +428,129 @@ def part_e(ctx, cases, threads=8, calls=100):
                                'threaded': jsonable(got), 'sequential': jsonable(want)})
 
 
+# -- (g) DEFAULT SEQUENCE OF / SET OF components left out of the substrate: the instantiated default of a decoded
+#        result must not be the type's own DEFAULT value
+
+def default_list_cases(ctx, n):
+    r = ctx.rng
+    g = gen.Gen(r, depth=1)
+    out = []
+    for _ in range(n):
+        elem = r.choice([('int',), ('int',), ('octs',), ('bool',), ('any',), ('str', 'UTF8String'), ('oid',)])
+        ft = (r.choice(['seqof', 'setof']), elem)
+        dv = ('list', [g.val(elem) for _ in range(r.randint(1, 3))])
+        fields = [('req', ('int',)), (('def', dv), ('imp', (128, 0, 1), ft)), ('opt', ('imp', (128, 0, 2), ('octs',)))]
+        if r.random() < 0.3:
+            fields.append((('def', ('list', [g.val(('int',)), g.val(('int',))])), ('imp', (128, 0, 3), ('seqof', ('int',)))))
+        r.shuffle(fields)
+        T = (r.choice(['seq', 'set']), fields)
+        v = ('rec', [None if isinstance(p, tuple) or (p == 'opt' and r.random() < 0.5) else g.val(f) for p, f in fields])
+        try:
+            out.append(codec.Case(T, v))
+        except Exception:  # noqa
+            ctx.stats['unbuildable'] += 1
+    return out
+
+
+def edit_list(comp, rng):
+    k = rng.randrange(3)
+    if k == 0 and len(comp):
+        comp.append(comp[0]); return 'append'
+    if k == 1 and len(comp):
+        comp[0] = comp[len(comp) - 1]; comp.append(comp[0]); return 'overwrite member 0 and append'
+    comp.clear(); return 'clear'
+
+
+def part_g(ctx, cases, tag=''):
+    rng = ctx.rng
+    for c in cases:
+        b = base_desc(c.T)
+        defs = [i for i, (p, ft) in enumerate(b[1]) if isinstance(p, tuple)]
+        for dec in ('BER', 'CER', 'DER'):
+            e = I.run_encode(dec, c.obj)
+            if e[0] != 'ok':
+                continue
+            spec = codec.Case(c.T, c.v).spec
+            snap0 = deep_snap(spec)
+            alone = dec_outcome(I.run_decode(dec, e[1], asn1Spec=codec.Case(c.T, c.v).spec), c.T)
+            d1 = I.run_decode(dec, e[1], asn1Spec=spec)
+            d2 = I.run_decode(dec, e[1], asn1Spec=spec)
+            ctx.case(('g' + tag, dec, c.cty, c.cval), True)
+            ctx.stats['decodes omitting DEFAULT SEQUENCE OF/SET OF components'] += 1
+            m = {'T': jsonable(c.T), 'v': jsonable(c.v), 'codec': dec, 'part': 'g' + tag, 'substrate': e[1].hex()}
+            if not (same_dec(dec_outcome(d1, c.T), alone) and same_dec(dec_outcome(d2, c.T), alone)):
+                ctx.prop_fail('two identical decode calls sharing the type object give different outcomes', m)
+                continue
+            if deep_snap(spec) != snap0:
+                ctx.prop_fail('%s decoding changed the guiding type object' % dec, m)
+                continue
+            if d1[0] != 'ok':
+                continue
+            r1, r2 = d1[1], d2[1]
+            edits = []
+            for i in defs:
+                comp = r1[i] if rng.random() < 0.5 else r1.getComponentByName('f%d' % i)      # the read instantiates the DEFAULT
+                edits.append('f%d: %s' % (i, edit_list(comp, rng)))
+            m['edits'] = edits
+            if deep_snap(spec) != snap0:
+                ctx.prop_fail('changing a decoded result changed the DEFAULT value held by the guiding type object', m)
+            elif not same_dec(dec_outcome(('ok', r2, b''), c.T), ('ok', alone[1], b'')):
+                ctx.prop_fail('changing a decoded result changed another decoded result', m)
+            else:
+                d3 = I.run_decode(dec, e[1], asn1Spec=spec)
+                if not same_dec(dec_outcome(d3, c.T), alone):
+                    ctx.prop_fail('the same decode call after a decoded result was changed gives a different outcome', m)
+            want = U.absval_top(r1, c.T)
+            e1 = I.run_encode('DER', r1)
+            if e1[0] == 'ok' and want[0] != 'bad' and any_canonical(c.T, c.v, 'DER'):
+                back = I.run_decode('DER', e1[1], asn1Spec=codec.Case(c.T, c.v).spec)
+                if back[0] == 'ok' and not U.aval_eq(U.absval_top(back[1], c.T), want):
+                    ctx.prop_fail('encoding a changed decoded result does not carry the change', dict(m, der=e1[1].hex()))
+
+
+def open_type_decodes(ctx, n, tag=''):
+    """DEFAULT SET OF / SEQUENCE OF ANY governed by an open type, left out of the substrate, decodeOpenTypes=True"""
+    from pyasn1.type import namedtype, opentype
+    rng = ctx.rng
+    for _ in range(n):
+        kind = rng.choice([1, 2])
+        blobs = []
+        for _ in range(rng.randint(1, 3)):
+            inner = univ.Integer(rng.randrange(-300, 300)) if kind == 1 else univ.OctetString(bytes(rng.randrange(256) for _ in range(rng.randrange(4))))
+            blobs.append(I.ENC['BER'].encode(inner))
+        lst = (univ.SetOf if rng.random() < 0.5 else univ.SequenceOf)(componentType=univ.Any())
+        for j, bl in enumerate(blobs):
+            lst.setComponentByPosition(j, univ.Any(bl))
+        base_cls = univ.Sequence if rng.random() < 0.5 else univ.Set
+        schema = base_cls(componentType=namedtype.NamedTypes(
+            namedtype.NamedType('id', univ.Integer()),
+            namedtype.DefaultedNamedType('blobs', lst.subtype(implicitTag=__import__('pyasn1').type.tag.Tag(128, 32, 1), cloneValueFlag=True),
+                                         openType=opentype.OpenType('id', {1: univ.Integer(), 2: univ.OctetString()}))))
+        substrate = bytes([0x30 if base_cls is univ.Sequence else 0x31, 3, 2, 1, kind])
+        snap0 = deep_snap(schema)
+        outs = []
+        for _ in range(3):
+            d = I.run_decode('BER', substrate, asn1Spec=schema, decodeOpenTypes=True)
+            outs.append(('ok', deep_snap(d[1]), d[2]) if d[0] == 'ok' else d[:2])
+        ctx.case(('open' + tag, kind, tuple(blobs), base_cls.__name__, type(lst).__name__), True)
+        ctx.stats['open type decodes with a DEFAULT list of ANY'] += 1
+        m = {'part': 'g-open' + tag, 'kind': kind, 'blobs': [x.hex() for x in blobs], 'substrate': substrate.hex(), 'outcomes': jsonable([o[:1] + (o[1] if o[0] != 'ok' else '',) for o in outs])}
+        if deep_snap(schema) != snap0:
+            ctx.prop_fail('decoding with decodeOpenTypes changed the guiding type object', m)
+        elif outs[0] != outs[1] or outs[0] != outs[2]:
+            ctx.prop_fail('identical decode calls (decodeOpenTypes) on one type object give different outcomes', m)
+
+
 def run(ctx):
     ctx.rule = ('random (type, value) of the universe (depth<=3): (a) deep snapshot / second encode / == answers around ber (definite, '
                 'indefinite chunked), cer, der and native encoding; (b) snapshot of the guiding type around decoding valid, truncated, '
                 'bit-flipped and over-long input, aliasing between two decoded results and the type; (c) random histories of encode/decode '
                 'calls on shared objects vs the same call on fresh objects, also evaluated in the Coq model; (d) 2..4 suspended streaming '
                 'decoders (often sharing one type object) in a random interleaving vs alone; (e) 8 threads x 100 calls on shared objects vs '
-                'sequential (the thread schedules are whatever the interpreter produced: sampled, not enumerated); (f) samples of (a)-(d) with '
-                'debug logging on')
+                'sequential (the thread schedules are whatever the interpreter produced: sampled, not enumerated); (f) samples of (a)-(d),(g) with debug logging on; (g) SEQUENCE/SET types with DEFAULT SEQUENCE OF / SET OF '
+                'components (INTEGER, OCTET STRING, BOOLEAN, ANY, string, OID members; also SET OF/SEQUENCE OF ANY under an open type with '
+                'decodeOpenTypes) that the substrate leaves out: type object snapshot, repeated decodes, in-place edits of the instantiated '
+                'default in one result against the type, the other result, a further decode and the DER round trip')
     quick = ctx.tier != 'thorough'
     cases = codec.gen_cases(ctx, ctx.n(60, 500), depth=3)
     cases = [c for c in cases if c.want[0] != 'bad']
@@ -446,6 +561,9 @@ def run(ctx):
     part_c(ctx, cases, ctx.n(400, 4000), exprs, meta)
     part_d(ctx, cases, ctx.n(60, 600))
     part_e(ctx, cases[:40] if quick else cases[:120])
+    dcases = default_list_cases(ctx, ctx.n(40, 400))
+    part_g(ctx, dcases)
+    open_type_decodes(ctx, ctx.n(30, 300))
     # (f) the same with the debug logger installed, then removed again
     sample = cases[:20] if quick else cases[:100]
     debug.setLogger(debug.Debug('all', printer=lambda *a: None))
@@ -454,6 +572,8 @@ def run(ctx):
         part_b(ctx, sample, tag='+log')
         part_c(ctx, sample, ctx.n(100, 600), None, None, tag='+log')
         part_d(ctx, sample, ctx.n(15, 100), tag='+log')
+        part_g(ctx, dcases[:10], tag='+log')
+        open_type_decodes(ctx, 5, tag='+log')
     finally:
         debug.setLogger(0)
     part_c(ctx, sample, ctx.n(50, 300), None, None, tag='+log-off-again')
